@@ -127,6 +127,62 @@ def order_case(rec, name, split, imag=False):
     return {'engine': name, 'errors': errs}
 
 
+TD_ENGINES = {'TimeDependentTEBD': ('tebd', 'TimeDependentTEBD', {'order': 2}), 'TimeDependentExpMPOEvolution': ('mpo_evolution', 'TimeDependentExpMPOEvolution', {'approximation': 'II', 'order': 1, 'compression_method': 'SVD'}),
+              'TimeDependentTwoSiteTDVP': ('tdvp', 'TimeDependentTwoSiteTDVP', {}), 'TimeDependentSingleSiteTDVP': ('tdvp', 'TimeDependentSingleSiteTDVP', {})}
+
+
+def time_dependent_case(rec, name):
+    """H(t) = H_XXZ + 1.5 t sum_i Sz_i Sz_{i+1}: the drivers that rebuild the model after every step reproduce the time-ordered
+    exponential with an error that shrinks (documented: first order) with the step; evolved_time advances by N*dt"""
+    import importlib
+    import scipy.linalg
+    from tenpy.models.spins import SpinChain
+    from tenpy.algorithms.exact_diag import ExactDiag
+
+    class DrivenChain(SpinChain):
+        def init_terms(self, model_params):
+            t = model_params.get('time', 0., 'real')
+            super().init_terms(model_params)
+            self.add_coupling(1.5 * t, 0, 'Sz', 0, 'Sz', 1)
+    pars = {'L': 6, 'S': 0.5, 'Jx': 1.0, 'Jy': 1.0, 'Jz': 0.5, 'hz': 0.2, 'bc_MPS': 'finite', 'conserve': 'Sz'}
+
+    def dense_H(t):
+        ED = ExactDiag(DrivenChain(dict(pars, time=t)))
+        ED.build_full_H_from_mpo()
+        return ED, ED.full_H.to_ndarray()
+    ED, H0 = dense_H(0.)
+    H1 = dense_H(1.)[1] - H0
+    modname, clsname, extra = TD_ENGINES[name]
+    cls = getattr(importlib.import_module('tenpy.algorithms.' + modname), clsname)
+    M0 = DrivenChain(dict(pars, time=0.))
+    psi0 = _init_state(M0, entangled=True)
+    v0 = ED.mps_to_full(psi0).to_ndarray()
+    T, fine = 0.4, 800
+    vT = v0.copy()
+    for k in range(fine):      # time-ordered exponential, midpoint rule with a very small step
+        vT = scipy.linalg.expm(-1.j * (T / fine) * (H0 + (k + 0.5) * (T / fine) * H1)) @ vT
+    errs = []
+    for nsteps in (8, 16):
+        dt = T / nsteps
+        psi = psi0.copy()
+        opts = {'dt': dt, 'N_steps': nsteps, 'trunc_params': {'chi_max': 100, 'svd_min': 1e-14, 'trunc_cut': None}}
+        opts.update(extra)
+        eng = cls(psi, DrivenChain(dict(pars, time=0.)), opts)
+        eng.run()
+        if abs(eng.evolved_time - T) > 1e-12:
+            rec.violation(f'{name}:evolved_time', f'{eng.evolved_time} after {nsteps} steps of {dt}', {'engine': name})
+        if abs(eng.model.options.get('time', None) - T) > 1e-12:
+            rec.violation(f'{name}:model-not-at-evolved-time', f"model time {eng.model.options.get('time', None)}, evolved_time {eng.evolved_time}", {'engine': name})
+        v = ED.mps_to_full(psi).to_ndarray()
+        ov = np.vdot(vT, v)
+        errs.append(float(np.linalg.norm(v / np.linalg.norm(v) - (ov / abs(ov)) * vT / np.linalg.norm(vT))))
+    obs = np.log2(errs[0] / errs[1]) if errs[1] > 1e-12 else 9.
+    if obs < 0.55:
+        rec.violation(f'{name}:order', f'errors {errs} for dt, dt/2 give observed order {obs:.2f} (documented: first order in dt for H(t))',
+                      {'engine': name, 'T': T})
+    return {'engine': name, 'errors': errs}
+
+
 def accounting_case(rec, name, chi, nsplit):
     """trunc_err.eps after run() calls == sum of the errors of the truncations performed."""
     kind, extra, order = ENGINES[name]
@@ -187,6 +243,11 @@ def run(rec):
         ok, d = rec.guarded(f'{name}[imaginary]:exception', lambda: order_case(rec, name, splits[1], imag=True), {'engine': name, 'imaginary': True})
         if ok:
             rec.case((name, 'imag'), d['errors'][0] > 1e-9, sample=dict(d, imaginary=True))
+    for name in TD_ENGINES:
+        rec.begin(f'time-dependent H: {name}')
+        ok, d = rec.guarded(f'{name}:exception', lambda: time_dependent_case(rec, name), {'engine': name})
+        if ok:
+            rec.case((name, 'time-dependent'), d['errors'][0] > 1e-9, sample=d)
     for name in (['TEBD-2', 'TDVP-2site'] if quick else ['TEBD-1', 'TEBD-2', 'TEBD-4', 'TEBD-4_opt', 'TDVP-2site']):
         for chi in ([3] if quick else [2, 3, 5]):
             for nsplit in ([2] if quick else [1, 3]):
